@@ -180,7 +180,10 @@ def main(tier):
                 total_q += len(answers)
                 if oe['outcome'] == 'ok' and W['netpols'] and 'true' in answers and 'false' in answers:
                     run.nontrivial(W)
-                terms = ['(%s, %s)' % (c_q(q), c_ans(a)) for q, a in zip(qs, answers)]
+                # when `list` itself fails on these resources some rule evaluation errors; whether a single query meets that rule
+                # depends on the order in which Go iterates the policy map, so error-vs-verdict is not compared there
+                skip_err = (ol['outcome'] != 'ok')
+                terms = ['(%s, %s)' % (c_q(q), 'OSkip' if skip_err else c_ans(a)) for q, a in zip(qs, answers)]
                 cases.append('(mkEC %s %s %s %s %s)' % (cnat(cid), clist([t for _, t in dl]), cbool(cli), cbool(oe['outcome'] == 'ok'), clist(terms)))
                 base = {'kind': 'eval', 'world': W, 'manifests': [m for m, _ in dl], 'mode': 'InsertObject loop (as k8snetpolicy eval)' if cli else 'NewPolicyEngineWithObjects'}
                 # --- against the real list of the same directory
